@@ -61,8 +61,10 @@ MTL_KINDS = [
     ("dup_features", ["dup"]),
     ("dup_shared", ["dup"]),
     ("dup_task", ["dup"]),
-    ("param_nonleaf", ["shared_fresh", "shared_feature", "task_fresh"]),
-    ("param_noreq", ["shared", "task"]),
+    # *_dflt_*: the OTHER group of parameters is left to its default (discovered from the graph); the explicit group with the
+    # offending tensor must be rejected all the same, before anything is written
+    ("param_nonleaf", ["shared_fresh", "shared_feature", "task_fresh", "task_fresh_dflt_shared", "shared_fresh_dflt_tasks"]),
+    ("param_noreq", ["shared", "task", "task_dflt_shared", "shared_dflt_tasks"]),
 ]
 # kinds for which the property does not promise a rejection by itself but "if rejected, nothing changed"
 MAY_SUCCEED = {("mtl", "dup_losses")}
@@ -329,6 +331,8 @@ def _mtl_calls(p: gen.MTLProgram, case):
         # rejection; so the flag is forced to True here and the case only says "if rejected, nothing changed".
         bad["retain_graph"] = True
     elif kind == "param_nonleaf":
+        dflt = variant.split("_dflt_")[1] if "_dflt_" in variant else None
+        variant = variant.split("_dflt_")[0]
         if variant == "shared_fresh":
             nlf = p.shared[0] * 1.0
             extra.append(nlf)
@@ -343,9 +347,13 @@ def _mtl_calls(p: gen.MTLProgram, case):
             g = [list(x) for x in bad["tasks_params"]]
             g[i] = _insert(g[i], pos // 2, nlf)
             bad["tasks_params"] = g
+        if dflt is not None:
+            bad.pop("shared_params" if dflt == "shared" else "tasks_params", None)
     elif kind == "param_noreq":
         const = p.other_leaves[0]
         assert not const.requires_grad
+        dflt = variant.split("_dflt_")[1] if "_dflt_" in variant else None
+        variant = variant.split("_dflt_")[0]
         if variant == "shared":
             bad["shared_params"] = _insert(p.shared, pos, const)
         else:
@@ -353,6 +361,8 @@ def _mtl_calls(p: gen.MTLProgram, case):
             g = [list(x) for x in bad["tasks_params"]]
             g[i] = _insert(g[i], pos // 2, const)
             bad["tasks_params"] = g
+        if dflt is not None:
+            bad.pop("shared_params" if dflt == "shared" else "tasks_params", None)
     else:
         raise KeyError(kind)
     return valid, bad, extra, prep
